@@ -1,7 +1,13 @@
 use std::mem;
 use std::ptr;
+#[cfg(not(multiqueue2_verif))]
 use std::sync::atomic::{AtomicUsize, Ordering};
+#[cfg(not(multiqueue2_verif))]
 use std::sync::Mutex;
+#[cfg(multiqueue2_verif)]
+use crate::verif_hooks::{AtomicUsize, Mutex};
+#[cfg(multiqueue2_verif)]
+use std::sync::atomic::Ordering;
 
 use crate::alloc;
 use crate::atomicsignal::AtomicSignal;
@@ -181,3 +187,7 @@ impl Drop for MemoryManagerInner {
 }
 
 unsafe impl Send for ToFree {}
+
+#[cfg(multiqueue2_verif)]
+#[path = "verif_hooks/memory_access.rs"]
+pub mod verif_access;
